@@ -537,4 +537,49 @@ theorem timeStage_keep (cfg : Cfg) (hc : CfgOK cfg) (b : List Str) (tcs : List T
         Except.bind, format_dateTimex d hd.1, pure, Except.pure]
       rw [hd.2.2]
 
+/-! ## stage 2 never raises for a month-day candidate (the general form of the `XXXX-02-29` regression) -/
+
+/-- one year of the month-day loop always succeeds: an impossible date (`XXXX-02-29` in a non-leap year, `XXXX-02-30`)
+counts as "not in the range", it does not raise -/
+theorem resolveDefinite_monthday_ok (m dd : Int) (tmo : Option Time) (yy : Nat) (c : DateRange) :
+    ∃ x, resolveDefiniteAgainstConstraint
+      { ({ month := some (.int m), dayOfMonth := some (.int dd), time := tmo } : Timex) with
+        year := some (.int (yy : Int)) } c = .ok x := by
+  unfold resolveDefiniteAgainstConstraint
+  simp only [dateFromTimex, toInt_int, mkDate]
+  by_cases hpos : (0 : Int) ≤ yy ∧ 0 ≤ m ∧ 0 ≤ dd
+  · by_cases hv : (⟨(yy : Int).toNat, m.toNat, dd.toNat⟩ : Date).valid = true
+    · have e : ({ month := some (.int m), dayOfMonth := some (.int dd), time := tmo, year := some (.int (yy : Int)) } : Timex) =
+          dateTimex ⟨(yy : Int).toNat, m.toNat, dd.toNat⟩ tmo := by
+        simp [dateTimex, Timex.fromDate]; omega
+      simp only [hpos, and_self, if_true, hv, pure, Except.pure, bind, Except.bind, e, format_dateTimex _ hv]
+      split <;> exact ⟨_, rfl⟩
+    · simp only [hpos, and_self, if_true, hv, Bool.false_eq_true, if_false, throw, throwThe, MonadExceptOf.throw,
+        bind, Except.bind, pure, Except.pure]
+      exact ⟨_, rfl⟩
+  · simp only [hpos, if_false, throw, throwThe, MonadExceptOf.throw, bind, Except.bind, pure, Except.pure]
+    exact ⟨_, rfl⟩
+
+theorem yearsLoop_monthday_ok (m dd : Int) (tmo : Option Time) (c : DateRange) : ∀ (n y : Nat),
+    ∃ x, yearsLoop { month := some (.int m), dayOfMonth := some (.int dd), time := tmo } c n y = .ok x := by
+  intro n
+  induction n with
+  | zero => intro y; exact ⟨[], rfl⟩
+  | succ n ih =>
+    intro y
+    obtain ⟨r, hr⟩ := resolveDefinite_monthday_ok m dd tmo y c
+    obtain ⟨rest, hrest⟩ := ih (y + 1)
+    exact ⟨r ++ rest, by simp only [yearsLoop, bind, Except.bind, hr, hrest, pure, Except.pure]⟩
+
+/-- **monthday_stage_total** — for every month-day candidate (any month and day numbers, with or without a time) and
+every range whose start year is not more than one year after its end year, `resolve_date_against_constraint` returns
+(no exception: this is the general statement behind the `XXXX-02-29` regression) -/
+theorem monthday_stage_total (m dd : Int) (tmo : Option Time) (c : DateRange)
+    (hy : (Date.ofOrd c.s).y ≤ (Date.ofOrd c.e).y + 1) :
+    ∃ x, resolveDateAgainstConstraint { month := some (.int m), dayOfMonth := some (.int dd), time := tmo } c = .ok x := by
+  obtain ⟨r, hr⟩ := yearsLoop_monthday_ok m dd tmo c ((Date.ofOrd c.e).y + 1 - (Date.ofOrd c.s).y) (Date.ofOrd c.s).y
+  refine ⟨r.filter (· ≠ []), ?_⟩
+  have hmd : andChainNotNone [some (Num.int m), some (Num.int dd)] = true := by simp [andChainNotNone]
+  simp only [resolveDateAgainstConstraint, hmd, if_true, hy, bind, Except.bind, hr, pure, Except.pure]
+
 end RTV.Timex
